@@ -59,6 +59,15 @@ import (
 //        d >= B: d <= gap <= d+B (weakest bound, as in (3)); and the start times of a run with notifications are
 //        identical to the start times of the run of the same configuration without notifications.
 //
+// DURATION HISTORIES. On the plain grid every production of a run takes the same d. The second part of the grid lets
+// the duration vary within a run: the first L productions take the durations of a word over seqAlphabet (instant,
+// 0.3 B, B, 1.5 B, 3.5 B), all later ones a short tail duration — e.g. one overrun followed by short productions. The
+// bounds above are then applied per gap with d = duration of the production that PRECEDES the gap (and, for (2), of
+// the production in flight). What this adds in normal mode: "once per block interval" has no memory — after an
+// overrun the loop may not catch up with a burst of blocks closer than B (clause min-spacing), and the interval
+// after each short production is B again (clause normal-period). The statement says nothing else about the cadence
+// after an overrun, and nothing else is demanded.
+//
 // Start-up delay: AggregationLoop first sleeps until genesis time + B (height 0). The genesis time is set to
 // (bubble start - B), so the delay is exactly 0 and the loop's two timers (both NewTimer(0)) fire at virtual time 0;
 // the oracle therefore expects the first start within the bounds above counted from 0.
@@ -341,7 +350,12 @@ func oracle(p Point, res result, baseline func() []time.Duration) (fails []fail,
 		tags = append(tags, "production-longer-than-block-interval")
 	}
 	if len(p.Seq) > 0 {
-		tags = append(tags, "varying-production-durations")
+		for i := range p.Seq {
+			if p.dur(i) != p.dur(i+1) {
+				tags = append(tags, "varying-production-durations")
+				break
+			}
+		}
 		for i := range p.Seq {
 			if p.dur(i) > B && p.dur(i+1) < p.dur(i) {
 				tags = append(tags, "overrun-followed-by-shorter-production")
@@ -489,7 +503,9 @@ type grid struct {
 // frac is a production duration as a fraction of the block interval.
 type frac struct{ num, den int64 }
 
-func (f frac) of(B time.Duration) time.Duration { return B * time.Duration(f.num) / time.Duration(f.den) }
+func (f frac) of(B time.Duration) time.Duration {
+	return B * time.Duration(f.num) / time.Duration(f.den)
+}
 func (f frac) String() string {
 	if f.den == 1 {
 		return strconv.FormatInt(f.num, 10)
@@ -669,7 +685,7 @@ func TestCheck(t *testing.T) {
 		}
 	}
 
-	var unchecked, obligations, duringProd, seqEvals atomic.Int64
+	var unchecked, obligations, duringProd, seqEvals, plainSamples, seqSamples atomic.Int64
 	evalOne := func(p Point, verbose bool) {
 		res := runPoint(t, p)
 		if res.err != "" {
@@ -713,10 +729,10 @@ func TestCheck(t *testing.T) {
 			sig = "fail:" + fails[0].clause + " " + sig
 		}
 		r.Outcome(sig)
-		if len(p.Seq) > 0 && len(p.Slots) == 1 && p.Cfg == 1 && p.EpsNs == 0 && p.Rep == 0 && p.Seq[0] > p.Seq[1] && p.Seq[1] > p.Seq[2] && p.Seq[2] > 0 && p.Slots[0]%13 == 5 {
+		if len(p.Seq) > 0 && len(p.Slots) == 1 && p.Cfg == 1 && p.EpsNs == 0 && p.Rep == 0 && p.Seq[0] > p.Seq[1] && p.Seq[1] > p.Seq[2] && p.Seq[2] > 0 && p.Slots[0]%13 == 5 && seqSamples.Add(1) <= 3 {
 			r.Sample(map[string]any{"point": p, "run": p.describe(res)})
 		}
-		if len(p.Slots) == 2 && p.Lazy && p.Cfg == 2 && p.D > 0 && p.Slots[0]%7 == 3 && p.Slots[1]%11 == 5 {
+		if len(p.Slots) == 2 && p.Lazy && p.Cfg == 2 && p.D > 0 && p.Slots[0]%7 == 3 && p.Slots[1]%11 == 5 && plainSamples.Add(1) <= 3 {
 			r.Sample(map[string]any{"point": p, "run": p.describe(res)})
 		}
 	}
@@ -806,23 +822,23 @@ func TestCheck(t *testing.T) {
 			"grid_points_per_block:idle":        perCfg,
 			"repetitions_of_runtime_tie_points": g.tieReps,
 			"duration_sequences": map[string]any{
-				"alphabet_in_blocks":               fmt.Sprint(seqAlphabet),
-				"passes":                           seqPasses,
-				"distinct_(block:idle,word,tail)":  len(seqWords),
-				"grid_points_total":                seqTotal,
-				"grid_points_normal_mode":          seqNormal,
-				"grid_points_lazy_mode":            seqTotal - seqNormal,
-				"grid_points_per_block:idle":       seqPerCfg,
-				"notification_delivery":            "Manager.NotifyNewTransactions only (no Reaper variant in this part)",
-				"notification_range_in_this_part":  "sum over the sequenced productions of max(W, duration) + 2W, W = idle interval (lazy) or block interval (normal)",
+				"alphabet_in_blocks":                fmt.Sprint(seqAlphabet),
+				"passes":                            seqPasses,
+				"distinct_(block:idle,word,tail)":   len(seqWords),
+				"grid_points_total":                 seqTotal,
+				"grid_points_normal_mode":           seqNormal,
+				"grid_points_lazy_mode":             seqTotal - seqNormal,
+				"grid_points_per_block:idle":        seqPerCfg,
+				"notification_delivery":             "Manager.NotifyNewTransactions only (no Reaper variant in this part)",
+				"notification_range_in_this_part":   "sum over the sequenced productions of max(W, duration) + 2W, W = idle interval (lazy) or block interval (normal)",
 				"repetitions_of_runtime_tie_points": g.tieReps,
 			},
 		},
 		Extra: map[string]any{"counts_of_the_reporting_shard": map[string]any{
-			"note":                              "measured by the process that wrote this record (shard 0 of process_shards, i.e. every 16th grid point, when sharded)",
-			"executions":                        evals.Load(),
-			"notifications_delivered":           obligations.Load(),
-			"notifications_during_a_production": duringProd.Load(),
+			"note":                                "measured by the process that wrote this record (shard 0 of process_shards, i.e. every 16th grid point, when sharded)",
+			"executions":                          evals.Load(),
+			"notifications_delivered":             obligations.Load(),
+			"notifications_during_a_production":   duringProd.Load(),
 			"executions_with_a_duration_sequence": seqEvals.Load(),
 		}},
 	})
